@@ -377,7 +377,7 @@ func (p *c07Prog) program() *gen.Program {
 
 func checkC07(c *Ctx) error {
 	r := c.R
-	r.Rule = "random event sequences of 3-10 events over places {x, y, p.A, p.B, a[0], a[1]} and up to 3 references: shared/mutable borrow, a reference initialised from another reference variable, read/write through the reference, read/write of the place, at top level or inside one block / if / else / else-if arm / trailing else / match arm / match default / while / for; classified by the loan model (MUST_REJECT: conflicting access while the reference is used later in program order or in the same loop; MUST_ACCEPT: no conflict even when loans last to the end of the statement containing their last mention, no array elements involved; MAY otherwise); plus fixed cases for returning a reference to a local / to a parameter and pinned probes for derived references. MUST_REJECT accepted and MUST_ACCEPT rejected are violations; every accepted program is run natively and compared with the interpreter. non-trivial = a distinct sequence whose verdict matched the model (and whose output matched when accepted)"
+	r.Rule = "random event sequences of 3-10 events over places {x, y, p.A, p.B, a[0], a[1]} and up to 3 references: shared/mutable borrow, a reference initialised from another reference variable, read/write through the reference, read/write of the place, at top level or inside one block / if / else / else-if arm / trailing else / match arm / match default / while / for; classified by the loan model (MUST_REJECT: conflicting access while the reference is used later in program order or in the same loop; MUST_ACCEPT: no conflict even when loans last to the end of the statement containing their last mention, no array elements involved; MAY otherwise); plus directed cases (a reference from a short function body used inside a nested if / else / while / match arm / block / for that declares no references, the conflicting access after 0-6 other statements of that construct) and fixed cases for returning a reference to a local / to a parameter and pinned probes for derived references. MUST_REJECT accepted and MUST_ACCEPT rejected are violations; every accepted program is run natively and compared with the interpreter. non-trivial = a distinct sequence whose verdict matched the model (and whose output matched when accepted)"
 	r.Assumptions = []string{"distinct elements of one array are MAY (the implementation treats index borrows conservatively)", "a loan expires after the last mention of its reference variable"}
 	n := c.N(300, 8000)
 	type cse struct {
@@ -406,6 +406,52 @@ func checkC07(c *Ctx) error {
 		cse{id: "probe:derived-ref-from-call", class: "reject", why: "m = idm(&'a) is a mutable reference to a; a = 5 while m is used later", src: "import \"std/io\";\n\nfn idm(x: &'i32) -> &'i32 {\n    return x;\n}\n\nfn main() {\n    let a := 10;\n    let m := idm(&'a);\n    a = 5;\n    m = 2;\n    io::Println(a);\n}\n"},
 		cse{id: "probe:derived-field-ref-from-call", class: "reject", why: "m = fieldOf(&'p) refers to p.A; p.A = 7 while m is used later", src: "import \"std/io\";\n\ntype Pair struct { .A: i32, .B: i32 };\n\nfn fieldOf(p: &'Pair) -> &'i32 {\n    return &'p.A;\n}\n\nfn main() {\n    let p: Pair = { .A = 1, .B = 2 };\n    let m := fieldOf(&'p);\n    p.A = 7;\n    m = 3;\n    io::Println(p.A);\n}\n"},
 	)
+	// directed: a reference declared in a short function body and used inside a nested construct that
+	// declares no references of its own; the conflicting access sits after 0..6 other statements of
+	// that construct and before a later use of the reference. MUST_REJECT; the same program without
+	// the conflicting line is the control (accept).
+	for _, kind := range []string{"if", "else", "while", "match-arm", "block", "for"} {
+		for nfill := 0; nfill <= 6; nfill++ {
+			for _, cf := range []struct{ name, decl, conflict, use string }{
+				{"write-under-mutable", "let r: &'i32 = &'x;", "x = 10;", "r = 5;"},
+				{"read-under-mutable", "let r: &'i32 = &'x;", "let seen: i32 = x;", "r = 5;"},
+				{"write-under-shared", "let r: &i32 = &x;", "x = 10;", "io::Println(r);"},
+				{"second-mutable-borrow", "let r: &'i32 = &'x;", "let r2: &'i32 = &'x;", "r = 5;"},
+			} {
+				for _, withConflict := range []bool{true, false} {
+					var body strings.Builder
+					for k := 0; k < nfill; k++ {
+						fmt.Fprintf(&body, "        let f%d: i32 = %d;\n", k, k)
+					}
+					if withConflict {
+						body.WriteString("        " + cf.conflict + "\n")
+					}
+					body.WriteString("        " + cf.use + "\n")
+					var open, close string
+					switch kind {
+					case "if":
+						open, close = "    if flag {\n", "    }\n"
+					case "else":
+						open, close = "    if !flag {\n    } else {\n", "    }\n"
+					case "while":
+						open, close = "    while flag {\n", "        break;\n    }\n"
+					case "match-arm":
+						open, close = "    match sel {\n        1 => {\n", "        }\n        _ => {\n        }\n    }\n"
+					case "for":
+						open, close = "    for q in lo..hi {\n", "    }\n"
+					default:
+						open, close = "    {\n", "    }\n"
+					}
+					src := "import \"std/io\";\n\nfn work(flag: bool, sel: i32, lo: i32, hi: i32) {\n    let x: i32 = 1;\n    " + cf.decl + "\n" + open + body.String() + close + "}\n\nfn main() {\n    work(true, 1, 0, 1);\n}\n"
+					cl, id := "reject", fmt.Sprintf("directed:%s:%s:after-%d-statements", kind, cf.name, nfill)
+					if !withConflict {
+						cl, id = "accept", id+":control"
+					}
+					fixed = append(fixed, cse{id: id, class: cl, why: cf.name + " inside a nested " + kind + " while the reference is used later in it", src: src})
+				}
+			}
+		}
+	}
 	// write-through with implicitly widened values: accepted and compared with the interpreter
 	if wt := mxWriteThrough(); wt != nil {
 		fixed = append(fixed, cse{id: "fixed:write-through-widths", class: "accept", prog: wt, src: wt.Source()})
